@@ -32,6 +32,7 @@ class Scn:
     min_returns: int = 1
     must_raise: bool = False
     notes: str = ""
+    compat: object = None        # fn(sit, out) -> list[(name, ok, detail)]: on a returning path the facts must entail compatibility
     waive: tuple = ()            # (substring of an identification context, reason): size identifications that need no guard
 
 
@@ -162,6 +163,42 @@ def raises_check(out):
     return []
 
 
+def no_value_check(out):
+    return []
+
+
+def seq_entailed(facts, sa: str, sb: str, da, db):
+    """do the facts of the path entail that the mode sequences sa and sb are equal (same length, same entries)?"""
+    if not facts.eq(da, db):
+        return False, f"the orders {facts.norm(P.of(da))!r} and {facts.norm(P.of(db))!r} are not known to be equal"
+    if facts.seq_rep(sa) == facts.seq_rep(sb):
+        return True, ""
+    d = facts.norm(P.of(da))
+    for x, y in ((sa, sb), (sb, sa)):
+        for rep, lo, hi in facts.partial.get(x, []) + facts.partial.get(facts.seq_rep(x), []):
+            if facts.seq_rep(rep) == facts.seq_rep(y) and facts.eq(lo, 0) and facts.eq(hi, d):
+                return True, ""
+    c = d.const_value()
+    if c is not None:
+        ok = all(facts.eq(P.atom(f"{facts.seq_rep(sa)}[{k}]"), P.atom(f"{facts.seq_rep(sb)}[{k}]")) for k in range(int(c)))
+        if ok:
+            return True, ""
+    return False, f"no guard on this path establishes {sa} == {sb} at every position"
+
+
+def compat_seqs(*pairs):
+    """pairs: (seqA, seqB, operandA, operandB)"""
+    def fn(sit, out):
+        res = []
+        for sa, sb, oa, ob in pairs:
+            ok, why = seq_entailed(out.facts, sa, sb, P.atom(f"d_{oa}"), P.atom(f"d_{ob}"))
+            res.append((f"compat.{sa}={sb}", ok, f"returning implies {sa} == {sb}" if ok else
+                        f"a value is returned although {why}: incompatible operands (order mismatch, or a mismatch at a position the guard "
+                        "does not look at) are accepted"))
+        return res
+    return fn
+
+
 def dx(sit):
     return sit.facts.norm(P.atom("d_x"))
 
@@ -194,11 +231,11 @@ def _matmul_spec(kind):
     return spec
 
 
-scn(name="matmul:ttm@tt", func=TT + "__matmul__", props=("C04", "C18"),
+scn(name="matmul:ttm@tt", func=TT + "__matmul__", props=("C04", "C18"), compat=compat_seqs(("N_A", "N_x", "A", "x")),
     args=lambda it: (make_tt(it, "A", True), [make_tt(it, "x", False)], {}), check=chain_check(_matmul_spec("ttm@tt")))
-scn(name="matmul:ttm@ttm", func=TT + "__matmul__", props=("C04", "C18"),
+scn(name="matmul:ttm@ttm", func=TT + "__matmul__", props=("C04", "C18"), compat=compat_seqs(("N_A", "M_B", "A", "B")),
     args=lambda it: (make_tt(it, "A", True), [make_tt(it, "B", True)], {}), check=chain_check(_matmul_spec("ttm@ttm")))
-scn(name="matmul:tt@ttm", func=TT + "__matmul__", props=("C04", "C18"),
+scn(name="matmul:tt@ttm", func=TT + "__matmul__", props=("C04", "C18"), compat=compat_seqs(("N_x", "M_A", "x", "A")),
     args=lambda it: (make_tt(it, "x", False), [make_tt(it, "A", True)], {}), check=chain_check(_matmul_spec("tt@ttm")))
 scn(name="matmul:tt@tt", func=TT + "__matmul__", props=("C18",), must_raise=True, min_returns=0,
     args=lambda it: (make_tt(it, "x", False), [make_tt(it, "y", False)], {}), check=raises_check)
@@ -249,7 +286,7 @@ def _mul_spec(ttm):
 
 scn(name="mul:tt*tt", func=TT + "__mul__", props=("C03", "C18"),
     args=lambda it: (make_tt(it, "x", False), [make_tt(it, "y", False)], {}), check=chain_check(_mul_spec(False)))
-scn(name="mul:ttm*ttm", func=TT + "__mul__", props=("C04", "C18"),
+scn(name="mul:ttm*ttm", func=TT + "__mul__", props=("C04", "C18"), compat=compat_seqs(("M_x", "M_y", "x", "y"), ("N_x", "N_y", "x", "y")),
     args=lambda it: (make_tt(it, "x", True), [make_tt(it, "y", True)], {}), check=chain_check(_mul_spec(True)))
 scn(name="mul:tt*ttm", func=TT + "__mul__", props=("C18",), must_raise=True, min_returns=0,
     args=lambda it: (make_tt(it, "x", False), [make_tt(it, "y", True)], {}), check=raises_check)
@@ -345,7 +382,7 @@ for _op, _sgn in (("add", 1), ("sub", -1)):
     scn(name=f"{_op}:tt,tt", func=TT + f"__{_op}__", props=("C03", "C18"),
         args=lambda it: (make_tt(it, "x", False), [make_tt(it, "y", False)], {}),
         check=strand_check(_addsub_tt_spec, {"x": COEF1, "y": Coef(_sgn)}, dx))
-    scn(name=f"{_op}:ttm,ttm", func=TT + f"__{_op}__", props=("C04", "C18"),
+    scn(name=f"{_op}:ttm,ttm", func=TT + f"__{_op}__", props=("C04", "C18"), compat=compat_seqs(("M_x", "M_y", "x", "y"), ("N_x", "N_y", "x", "y")),
         args=lambda it: (make_tt(it, "x", True), [make_tt(it, "y", True)], {}),
         check=strand_check(_addsub_ttm_spec, {"x": COEF1, "y": Coef(_sgn)}, dx))
     scn(name=f"{_op}:tt,ttm", func=TT + f"__{_op}__", props=("C18",), must_raise=True, min_returns=0,
